@@ -18,11 +18,15 @@ pub enum CodecId {
     Sept,
     /// hand-written user codec, 8 bits, codes different from the ASCII of the display characters
     Oct,
+    /// hand-written user codec, 2 bits, declaration order differs from code order
+    Duo,
+    /// hand-written user codec, 1 bit, larger code declared first
+    Uno,
 }
 
 /// the seven built-in codecs plus two hand-written user codecs of widths 3 and 7 bits: the generic
 /// sequence code must not depend on the width being one of 1, 2, 4, 5, 6, 8
-pub const ALL_CODECS: [CodecId; 10] = [
+pub const ALL_CODECS: [CodecId; 12] = [
     CodecId::Dna,
     CodecId::Iupac,
     CodecId::Amino,
@@ -33,6 +37,8 @@ pub const ALL_CODECS: [CodecId; 10] = [
     CodecId::Tri,
     CodecId::Sept,
     CodecId::Oct,
+    CodecId::Duo,
+    CodecId::Uno,
 ];
 
 pub const BUILTIN_CODECS: [CodecId; 7] = [CodecId::Dna, CodecId::Iupac, CodecId::Amino, CodecId::Text, CodecId::MDna, CodecId::MIupac, CodecId::Degen];
@@ -50,6 +56,8 @@ impl CodecId {
             CodecId::Tri => "custom3",
             CodecId::Sept => "custom7",
             CodecId::Oct => "custom8",
+            CodecId::Duo => "custom2",
+            CodecId::Uno => "custom1",
         }
     }
     pub fn model(self) -> &'static Model {
@@ -67,6 +75,8 @@ impl CodecId {
             CodecId::Tri => 3,
             CodecId::Sept => 7,
             CodecId::Oct => 8,
+            CodecId::Duo => 2,
+            CodecId::Uno => 1,
         }
     }
 }
@@ -408,6 +418,24 @@ fn build(id: CodecId) -> Model {
             alts: vec![],
             ascii_alias: vec![],
             all_bits: false,
+            comp: None,
+        },
+        CodecId::Duo => Model {
+            id,
+            bits: 2,
+            syms: vec![(0, b'A'), (1, b'C'), (3, b'G'), (2, b'T')],
+            alts: vec![],
+            ascii_alias: vec![],
+            all_bits: true,
+            comp: None,
+        },
+        CodecId::Uno => Model {
+            id,
+            bits: 1,
+            syms: vec![(1, b'Y'), (0, b'R')],
+            alts: vec![],
+            ascii_alias: vec![],
+            all_bits: true,
             comp: None,
         },
         CodecId::Oct => Model {
